@@ -463,6 +463,9 @@ pub fn build_seeds(tier: Tier) -> (Vec<Seed>, SeedStats) {
     }
     // (i-b) synthesised families for recursion guards (independent of the corpus)
     crate::synth::synth_seeds(&mut out);
+    // cheap (about 0.1 s of CPU in total) and ahead of the 18 000 sparse-bit-set units, so that a deadline on a busy
+    // machine never cuts it
+    crate::extarg::extarg_seeds(&mut out);
     crate::sparsebits::sparsebits_seeds(&mut out);
     crate::capsweep::capsweep_seeds(&mut out);
     // (ii) font-test-data static blobs: fit matrix — a blob seeds every type (and argument value)
